@@ -33,7 +33,7 @@ def params_for(tier, seed):
         extra = rnd.sample(["s255", "s256", "s2e64", "s2e159"], 2)
         serials = [c for c in ALL_CLASSES if c in ("z0", "s1") or c in extra]
         return dict(owners=["A", "B"], serials=serials, bodies=2, max_ops=4, page_sizes=[0, 1, 2],
-                    queries="accepted", n_paths=12, path_len=14, chunks=12)
+                    queries="new", n_paths=30, path_len=14, chunks=12)
     return dict(owners=["A", "B"], serials=list(ALL_CLASSES), bodies=2, max_ops=5, page_sizes=[0, 1, 2, 3],
                 queries="new", n_paths=150, path_len=28, chunks=16)
 
@@ -42,14 +42,15 @@ def tla_set(xs):
     return "{" + ", ".join(json.dumps(x) if isinstance(x, str) else str(x) for x in xs) + "}"
 
 
-def make_cfg(base_name, p, impl="intended", max_ops=None):
+def make_cfg(base_name, p, impl=None, max_ops=None):
     """Constants of this run substituted into a shipped cfg file."""
     text = open(os.path.join(SPEC_DIR, base_name)).read()
     text = re.sub(r"Owners = \{[^}]*\}", "Owners = " + tla_set(p["owners"]), text)
     text = re.sub(r"Serials = \{[^}]*\}", "Serials = " + tla_set(p["serials"]), text)
     text = re.sub(r"Bodies = \{[^}]*\}", "Bodies = " + tla_set(list(range(1, p["bodies"] + 1))), text)
     text = re.sub(r"PageSizes = \{[^}]*\}", "PageSizes = " + tla_set(p["page_sizes"]), text)
-    text = re.sub(r'Impl = "[a-z]*"', 'Impl = "%s"' % impl, text)
+    if impl is not None:
+        text = re.sub(r'Impl = "[a-z]*"', 'Impl = "%s"' % impl, text)
     text = re.sub(r"MaxOps = \d+", "MaxOps = %d" % (p["max_ops"] if max_ops is None else max_ops), text)
     return text
 
@@ -161,7 +162,8 @@ def split_chunks(lines, n):
 
 _RE_QFAIL = re.compile(r'<<"QFAIL", "(\w+)", (\d+), (\d+)>>')
 _RE_DRIFT = re.compile(r'<<"DRIFT", (.*)>>')
-_RE_DTOT = re.compile(r'<<"DRIFT_TOTAL", (\d+)>>')
+_RE_DTOT = re.compile(r'<<"DRIFT_TOTAL", (\d+), (\d+)>>')
+_RE_CT = re.compile(r'<<"CTFAIL", "(\w+)", (\d+), (\d+)>>')
 _RE_L = re.compile(r"/\\ l = (\d+)")
 
 
@@ -173,6 +175,7 @@ class J3Result:
         self.qindex = None
         self.drift = 0
         self.drift_lines = []
+        self.ctfails = []     # (tag, line, qindex): listings paged with count_total on which QComplete is false
         self.tlc = None
 
 
@@ -192,13 +195,17 @@ def validate(lines, p, keys_mod, scratch_dir, name, timeout=1500):
             seen.add(m.group(1))
             j.drift_lines.append(m.group(1))
     j.drift = len(seen)
+    j.ctfails = sorted(set((m.group(1), int(m.group(2)), int(m.group(3))) for m in _RE_CT.finditer(r.out)),
+                       key=lambda x: (x[1], x[2]))
     if r.ok:
         tot = _RE_DTOT.findall(r.out)
         if not tot:
             raise vlib.Inconclusive("J3 %s: trace not consumed to the end (no drift total printed)" % name)
         if r.depth != len(lines) + 1:
             raise vlib.Inconclusive("J3 %s: consumed %d of %d lines" % (name, r.depth - 1, len(lines)))
-        j.drift = max(j.drift, max(int(x) for x in tot))
+        j.drift = max(j.drift, max(int(x[0]) for x in tot))
+        if max(int(x[1]) for x in tot) != len(j.ctfails):
+            raise vlib.Inconclusive("J3 %s: count_total verdicts printed %d, counted %s" % (name, len(j.ctfails), tot))
         j.ok = True
         return j
     if r.violated is None:
@@ -233,9 +240,16 @@ def act_of(d):
     return dict(k=d["ev"], signer=d["signer"], mo=d["mo"], o=d["o"], s=d["s"], b=d["b"])
 
 
-def violation_from(j, chunk_lines, paths, p, origin):
-    """Turn a TLC verdict on recorded lines into a Violation with a replayable script."""
-    idx = (j.line or 1) - 1
+CT_KNOWN_SIG = "T_ListingComplete:list:count_total:next_key-overwritten-by-nonmatching-key"
+
+
+def violation_from(j, chunk_lines, paths, p, origin, ct=None):
+    """Turn a TLC verdict on recorded lines into a Violation with a replayable script.
+    ct = (tag, line, qindex): a count_total listing on which TLC found QComplete false (non-stopping verdict)."""
+    violated, line, qindex = j.violated, j.line, j.qindex
+    if ct is not None:
+        violated, line, qindex = "T_ListingComplete", ct[1], ct[2]
+    idx = (line or 1) - 1
     d = json.loads(chunk_lines[idx])
     prev = json.loads(chunk_lines[idx - 1]) if idx > 0 else None
     # script: how the harness reached the source state, then the step
@@ -254,19 +268,21 @@ def violation_from(j, chunk_lines, paths, p, origin):
                 break
             script.insert(0, act_of(dk))
             k -= 1
-    what = j.violated
-    detail = "TLC: %s is false on line %d of the recorded trace (%s)\n" % (j.violated, idx + 1, origin)
+    what = violated
+    detail = "TLC: %s is false on line %d of the recorded trace (%s)\n" % (violated, idx + 1, origin)
     detail += "step: %s -> ok=%s %s %s\n" % (describe_act(d), d["ok"], d["stage"], d["err"])
     if prev is not None:
         detail += "registry before: %s\n" % (prev["sid"] or "(empty)")
     detail += "registry after:  %s\n" % (d["sid"] or "(empty)")
     sig = what
-    if j.qindex is not None and 0 < j.qindex <= len(d["q"]):
-        q = d["q"][j.qindex - 1]
+    if qindex is not None and 0 < qindex <= len(d["q"]):
+        q = d["q"][qindex - 1]
         detail += "query: %s -> ok=%s err=%s pages=%s\n" % (describe_q(q), q["ok"], q["err"], json.dumps(q["pages"]))
         zero = any(e["s"] == "z0" for e in d["reg"])
         sig = "%s:%s:%s%s" % (what, q["k"], "failed" if not q["ok"] else "wrong-result",
                               ":serial-0-registered" if zero else "")
+        if ct is not None:
+            sig = CT_KNOWN_SIG if ct[0] == "asfound" else "T_ListingComplete:list:count_total:other"
     else:
         sig = "%s:%s" % (what, d["ev"])
     detail += "script: %s\n" % json.dumps(script)
@@ -294,12 +310,14 @@ def selftest(lines, p, keys_mod, sdir):
     objs = [json.loads(x) for x in pref]
     results = {}
 
-    def run(name, mutated):
-        j = validate([json.dumps(o, separators=(",", ":")) + "\n" for o in mutated], p, keys_mod, sdir, "selftest-" + name)
-        results[name] = "rejected:" + str(j.violated) if not j.ok else "ACCEPTED"
+    ex = concurrent.futures.ThreadPoolExecutor(max_workers=5)
+    futs = {}
 
-    base = validate(pref, p, keys_mod, sdir, "selftest-base")
-    results["unmodified"] = "accepted" if base.ok else "rejected:" + str(base.violated)
+    def run(name, mutated):
+        futs[name] = ex.submit(validate, [json.dumps(o, separators=(",", ":")) + "\n" for o in mutated], p, keys_mod,
+                               sdir, "selftest-" + name)
+
+    fbase = ex.submit(validate, pref, p, keys_mod, sdir, "selftest-base")
     # (1) drop one certificate from one listing page
     m = json.loads(json.dumps(objs))
     done = False
@@ -341,6 +359,12 @@ def selftest(lines, p, keys_mod, sdir):
                 o["q"], o["hasq"] = [], False
                 break
     run("flip_state", m)
+    base = fbase.result()
+    results["unmodified"] = "accepted" if base.ok else "rejected:" + str(base.violated)
+    for name, f in futs.items():
+        j = f.result()
+        results[name] = "rejected:" + str(j.violated) if not j.ok else "ACCEPTED"
+    ex.shutdown()
     results["ok"] = (results["unmodified"] == "accepted" and
                      all(v.startswith("rejected") for k, v in results.items() if k not in ("unmodified", "ok")))
     return results
@@ -386,18 +410,15 @@ def run(pid, tier, seed, replay):
     keyorder = [tuple(x) for x in info["keyorder"]]
     keys_mod = keys_module(keyorder)
 
-    # ---- J1
-    cfg = make_cfg("MC_Cert_small.cfg", p)
-    j1 = vlib.tlc(SPEC_DIR, "CertMC", "j1.cfg", workers=min(8, vlib.NCPU), timeout=1500,
-                  extra_files={"j1.cfg": cfg, "CertKeys.tla": keys_mod})
-    vlib.tlc_require_ok(j1, "J1 Cert.tla")
-    vlib.log("[C17] J1: %d states, %d transitions, depth %d, %.1fs" % (j1.distinct, j1.generated, j1.depth, j1.wall_s))
+    # ---- J1 (runs concurrently with J2; joined before J3)
+    pool = concurrent.futures.ThreadPoolExecutor(max_workers=3)
+    f_j1 = pool.submit(vlib.tlc, SPEC_DIR, "CertMC", "j1.cfg", workers=min(6, vlib.NCPU), timeout=1500,
+                       extra_files={"j1.cfg": make_cfg("MC_Cert_small.cfg", p), "CertKeys.tla": keys_mod})
     # vacuity guard: the same properties must be able to fail -- the as-found variant of the model does
-    cfg = make_cfg("MC_Cert_asfound.cfg", p, impl="asfound", max_ops=2)
-    j1b = vlib.tlc(SPEC_DIR, "CertMC", "j1b.cfg", workers=2, timeout=600,
-                   extra_files={"j1b.cfg": cfg, "CertKeys.tla": keys_mod})
-    if j1b.violated != "Prop_Queries":
-        raise vlib.Inconclusive("J1 vacuity guard: the as-found model does not violate Prop_Queries (%r)" % j1b)
+    f_j1b = pool.submit(vlib.tlc, SPEC_DIR, "CertMC", "j1b.cfg", workers=2, timeout=600,
+                        extra_files={"j1b.cfg": make_cfg("MC_Cert_d4.cfg", p, max_ops=2), "CertKeys.tla": keys_mod})
+    f_j1c = pool.submit(vlib.tlc, SPEC_DIR, "CertMC", "j1c.cfg", workers=2, timeout=600,
+                        extra_files={"j1c.cfg": make_cfg("MC_Cert_asfound.cfg", p, max_ops=4), "CertKeys.tla": keys_mod})
 
     # ---- J2
     edges_path = os.path.join(sdir, "edges.ndjson")
@@ -419,6 +440,14 @@ def run(pid, tier, seed, replay):
     pstats = run_harness(vh, "paths", p, scripts_path, ptrace_path)
     vlib.log("[C17] J2 scripts on the real app: %s" % json.dumps(pstats, sort_keys=True))
 
+    j1, j1b, j1c = f_j1.result(), f_j1b.result(), f_j1c.result()
+    pool.shutdown()
+    vlib.tlc_require_ok(j1, "J1 Cert.tla")
+    vlib.log("[C17] J1: %d states, %d transitions, depth %d, %.1fs" % (j1.distinct, j1.generated, j1.depth, j1.wall_s))
+    if j1b.violated != "Prop_Queries" or j1c.violated != "Prop_Queries":
+        raise vlib.Inconclusive("J1 vacuity guard: the as-found variants of the model (D4; count_total) do not "
+                                "violate Prop_Queries (%r, %r)" % (j1b, j1c))
+
     # ---- J3
     glines = open(trace_path).readlines()
     plines = open(ptrace_path).readlines()
@@ -427,13 +456,19 @@ def run(pid, tier, seed, replay):
     results = [("graph", s, c, j) for s, c, j in validate_all(glines, p, keys_mod, sdir, "graph", p["chunks"])]
     results += [("paths", s, c, j) for s, c, j in validate_all(plines, p, keys_mod, sdir, "paths", max(2, p["chunks"] // 3))]
     vlib.log("[C17] J3: %d lines validated by TLC in %.1fs" % (len(glines) + len(plines), time.time() - t3))
-    violations, drift = [], 0
+    violations, drift, n_ct = [], 0, 0
+    ct_seen = set()
     for origin, start, chunk, j in results:
         drift += j.drift
         for dl in j.drift_lines[:20]:
             vlib.log("DRIFT %s chunk@%d: %s" % (origin, start, dl))
         if not j.ok:
             violations.append(violation_from(j, chunk, paths, p, origin))
+        n_ct += len(j.ctfails)
+        for ct in j.ctfails:      # one representative per kind: the first (shortest in the graph walk)
+            if ct[0] not in ct_seen:
+                ct_seen.add(ct[0])
+                violations.append(violation_from(j, chunk, paths, p, origin, ct=ct))
     # distinct non-trivial: distinct (source registry, transaction) pairs executed whose transaction was accepted,
     # plus distinct non-empty registries whose full query set was judged
     accepted_pairs, judged_states = set(), set()
@@ -448,8 +483,9 @@ def run(pid, tier, seed, replay):
             if d["sid"]:
                 judged_states.add(d["sid"])
         prev_sid = d["sid"]
-    st = selftest(glines, p, keys_mod, sdir) if not violations else {"ran": False, "reason": "violations present"}
-    if not violations and not st.get("ok"):
+    stopped = any(not j.ok for _, _, _, j in results)
+    st = selftest(glines, p, keys_mod, sdir) if not stopped else {"ran": False, "reason": "violations present"}
+    if not stopped and not st.get("ok"):
         raise vlib.Inconclusive("binding self-test failed: %s" % json.dumps(st))
     samples = []
     for sid in list(paths.keys())[-2:]:
@@ -460,6 +496,7 @@ def run(pid, tier, seed, replay):
         "traces_validated_against_impl": gstats.get("segments", 0) + 1 + pstats.get("segments", 0),
         "evaluations": gstats.get("steps", 0) + pstats.get("steps", 0),
         "query_results_judged": nq,
+        "count_total_listings_incomplete": n_ct,
         "distinct_nontrivial": len(accepted_pairs) + len(judged_states),
         "rule": "graph walk: every edge (registry state, transaction) of TLC's bounded transaction graph executed once on the "
                 "real app from a stored representative of its source state; scripts: seeded random transaction sequences "
@@ -469,7 +506,7 @@ def run(pid, tier, seed, replay):
         "configs": {"owners": p["owners"], "serials": {s: DEC[s] for s in p["serials"]}, "max_ops": p["max_ops"],
                     "page_sizes": p["page_sizes"], "bodies": p["bodies"], "keyorder": ["%s/%s" % k for k in keyorder]},
         "j1": {"distinct": j1.distinct, "generated": j1.generated, "depth": j1.depth, "wall_s": round(j1.wall_s, 1),
-               "asfound_variant_violates": j1b.violated},
+               "d4_variant_violates": j1b.violated, "asfound_variant_violates": j1c.violated},
         "j2": {"edges": n_edges, "graph": gstats, "scripts": pstats},
         "trace_lines": len(glines) + len(plines),
     }
@@ -479,7 +516,8 @@ def run(pid, tier, seed, replay):
         "in the graph walk one concrete store (an unwritten CacheContext branch) represents each abstract registry; the "
         "harness checks that every other way of reaching it yields byte-identical store contents",
         "the projected registry is read from the raw store values (x509 body -> owner CN, serial), not through the keeper",
-        "pagination: pages are obtained by following next_key with count_total unset (DESIGN 5.1)",
+        "pagination: the union of the pages obtained by following next_key (DESIGN 5.1), also with count_total set, and "
+        "by stepping the offset",
     ]
     if gstats.get("representative_mismatch"):
         raise vlib.Inconclusive("graph walk: %d states reached with differing store bytes" % gstats["representative_mismatch"])
@@ -503,6 +541,11 @@ def run_replay(pid, tier, seed, replay, vh, sdir, t0):
     for dl in j.drift_lines[:20]:
         vlib.log("DRIFT replay: %s" % dl)
     violations = [] if j.ok else [violation_from(j, lines, {}, p, "paths")]
+    seen = set()
+    for ct in j.ctfails:
+        if ct[0] not in seen:
+            seen.add(ct[0])
+            violations.append(violation_from(j, lines, {}, p, "paths", ct=ct))
     coverage = {"evaluations": stats.get("steps", 0), "distinct_nontrivial": max(2, stats.get("accepted", 0)),
                 "rule": "replay of one saved script", "samples": [json.loads(open(script).readline())],
                 "states": 1, "transitions": max(1, stats.get("steps", 0)), "traces_validated_against_impl": 1,
@@ -511,6 +554,10 @@ def run_replay(pid, tier, seed, replay, vh, sdir, t0):
     new = [v for v in violations if not vlib.known_finding(pid, v.signature)]
     for v in violations:
         vlib.log("[%s] replay verdict: %s\n%s" % (pid, v.signature, v.detail))
+    for v in violations:
+        kf = vlib.known_finding(pid, v.signature)
+        if kf:
+            print("KNOWN-FINDING: property=%s %s" % (pid, kf.get("what", v.signature)), flush=True)
     if new:
         print("VIOLATION property=%s replay=%s" % (pid, replay), flush=True)
         return 1
